@@ -4,6 +4,7 @@ import sys
 
 from vf.core import e1, check, rel, runner, sim, snap
 from vf import families as F
+from vf.checks.c01 import ADDON_GAIN
 
 PID = 'C12'
 
@@ -197,6 +198,38 @@ def plan(tier, seed):
                         variants.append((f'override:{n - 1}/ws-{ord(w):04x}', text([w + l.replace(', ', w + ',' + w, 1) + w for l in fl]), order))
         for i in range(0, len(variants), B):
             P.append({'id': 'full/' + fid, 'base': lines, 'variants': variants[i:i + B]})
+    # an input that uses BOTH extensions and relies on their auto-detection (no 'Do AddOn Calculations' line): the add-on block keeps its own
+    # relative order (as the property allows), everything else moves - each other line to the front / to the back, the whole add-on block and
+    # the whole S-DAC-GT block to every position, the two blocks swapped, all lines reversed around the fixed-order add-on block
+    core = [l for l in F.lines(F.base(1, 1, 2, 4, (4, 2, 1))) if not l.startswith('Construction Years')] + ['Construction Years, 1']
+    addon = [f'{k}, {v}' for k, v in ADDON_GAIN.items() if k.startswith('AddOn')]
+    sdac = ['Do S-DAC-GT Calculations, True', 'S-DAC-GT CAPEX, 1300', 'S-DAC-GT OPEX, 120', 'S-DAC-GT Electrical Energy, 900', 'S-DAC-GT Thermal Energy, 1500']
+    base_lines = core + addon + sdac
+    variants = []
+    for pos in sorted({0, 1, len(core) // 2, len(core)}):
+        for pos2 in sorted({0, len(core) // 3, len(core)}):
+            rest = list(core)
+            # insert the later block first so that positions refer to the core
+            a, b = (pos, addon), (pos2, sdac)
+            for label, first, second in (('addon-first', a, b), ('sdac-first', b, a)):
+                l2 = list(rest)
+                hi, lo = (first, second) if first[0] >= second[0] else (second, first)
+                l2[hi[0]:hi[0]] = hi[1]
+                l2[lo[0]:lo[0]] = lo[1]
+                if first[0] == second[0]:       # same position: 'first' block really comes first
+                    l2 = rest[:first[0]] + first[1] + second[1] + rest[first[0]:]
+                variants.append((f'blocks:{label}@{pos}/{pos2}', text(l2)))
+    variants.append(('blocks:sdac-lines-spread', text([x for i, l in enumerate(core) for x in ([l] + ([sdac[i // 7]] if i % 7 == 0 and i // 7 < len(sdac) else []))] + addon)))
+    variants.append(('blocks:core-reversed', text(sdac[::-1] + core[::-1] + addon)))
+    variants.append(('blocks:core-reversed-addon-first', text(addon + core[::-1] + sdac[::-1])))
+    for i in range(len(core)):
+        if tier == 'quick' and i % 4:
+            continue
+        rest = core[:i] + core[i + 1:]
+        variants.append((f'blocks:front{i}', text([core[i]] + rest + addon + sdac)))
+        variants.append((f'blocks:back{i}', text(sdac + addon + rest + [core[i]])))
+    for i in range(0, len(variants), B):
+        P.append({'id': 'full/addons-sdacgt', 'base': base_lines, 'variants': variants[i:i + B]})
     return P
 
 
@@ -208,7 +241,7 @@ def run(tier, seed, budget=None):
               'transpositions, every single-line move to front/back; decorations on all lines at once and on each line singly (blanks, tabs, the twelve other characters str.strip() removes, blanks around '
               'commas, five comment-field styles, CR, comment lines with each prefix, blank lines, missing final newline); a duplicate with a different '
               'in-range value inserted before each line / at the top (last occurrence governs) and an identical duplicate appended; the override '
-              'dictionary of the client on top of a base file (4 choices of overridden lines x 2 dictionary orders x 6 layouts of the end of the file). Oracle: computed '
+              'dictionary of the client on top of a base file; an input using add-ons and S-DAC-GT by auto-detection with its two blocks moved to every position (add-on lines in their own order) (4 choices of overridden lines x 2 dictionary orders x 6 layouts of the end of the file). Oracle: computed '
               'results bit-identical and report text identical (clock lines removed)'),
         assumptions=['duplicate-with-different-value is not applied to the structural options that Model.__init__ reads from the raw input before modules exist',
                      'trailing comments are tested in the comma-separated styles the shipped examples use'])
